@@ -83,6 +83,14 @@ class IterPath:
     def holds(self, fact):
         """fact (z3 Bool or Python bool) holds on every state of this path?  (solver: path & !fact unsat)"""
         if isinstance(fact, bool):
+            if not fact:
+                # structural violation on this path: any state of the path is a counterexample -- fetch one for the native replay
+                self.last_model = None
+                try:
+                    if self.dom.check_sliced(z3.BoolVal(True), timeout_ms=10000) == z3.sat:
+                        self.last_model = self.dom.last_sliced.model()
+                except Exception:
+                    pass
             return fact
         r = self.dom.check_sliced(z3.Not(fact), timeout_ms=getattr(self, "timeout_ms", 20000))
         if r == z3.unsat:
